@@ -117,6 +117,9 @@ func runCheck(id, tier string, seed int64) int {
 	violations := 0
 	os.MkdirAll(filepath.Join(verifDir, "replays", id), 0o755)
 	for _, spec := range prop.Harnesses {
+		if spec.ThoroughOnly && tier != "thorough" {
+			continue
+		}
 		if exit == 1 && os.Getenv("GOSX_ALL_HARNESSES") == "" {
 			fmt.Printf("   %-34s not run (a counterexample of this property is already confirmed; GOSX_ALL_HARNESSES=1 runs everything)\n", spec.Name)
 			continue
@@ -328,7 +331,7 @@ func writeEvidence(prop *Property, tier string, seed int64, results []*HarnessRe
 		hs = append(hs, map[string]any{
 			"name": r.Spec.Name, "bounds": r.Bounds, "solver_profile": r.Spec.Profile, "paths": r.Paths, "outcomes": r.Outcomes,
 			"decisions": r.Decisions, "ssa_steps": r.Steps, "queries": r.Queries, "unknown": r.Unknown, "solver_time_s": r.SolverTime.Seconds(),
-			"max_query_s": r.MaxQuery.Seconds(), "explore_wall_s": r.Wall.Seconds(), "cover_labels": r.Covers, "timed_out": r.TimedOut, "stopped_at_first_confirmed_counterexample": r.StoppedEarly,
+			"max_query_s": r.MaxQuery.Seconds(), "explore_wall_s": r.Wall.Seconds(), "cover_labels": r.Covers, "timed_out": r.TimedOut, "watchdog_kills": r.Watchdog, "stopped_at_first_confirmed_counterexample": r.StoppedEarly,
 			"symbolic_counterexamples": len(r.Violations), "confirmed_natively": len(r.Confirmed), "unconfirmed": len(r.Unconfirmed),
 			"traces_validated_against_impl": r.TracesValidated, "trace_mismatches": len(r.TraceMismatches), "non_ok_path_messages": msgs, "note": r.Spec.Note,
 		})
